@@ -197,7 +197,8 @@ u_reads(uint64_t idx, void *arg)
     size_t hreq = serial ? 14 : 12;
     size_t cap = B - sizeof(RPFrame);
     long fit_req = ((long)cap - (long)hreq) / (long)ws;   /* fits behind the request header */
-    long fit_resp = ((long)cap - 16) / (long)ws;          /* would fit if a full response header were reserved */
+    /* would fit if the response's own header (serial: 16 octets with both checksums, TCP: 12) were reserved */
+    long fit_resp = ((long)cap - (serial ? 16 : 12)) / (long)ws;
     unsigned char raw[64], wire[140];
     char key[80], ctx[160];
     for (long n = fit_resp - 20; n <= fit_req + 24; n++) {
